@@ -257,7 +257,7 @@ vp_remove_te(&mut headers);
             &&& status_spec(line_of(w, n)) == Some(status_u16(r.sp_status()))
             &&& hd is Some
             &&& exists|h0: HeaderMap| hm_bytes(&h0) == hd.unwrap().0
-                    && hm_view(&r.sp_headers()) == hm_view(&h0).filter(|e: (Seq<u8>, HeaderValue)| e.0 != te_name())
+                    && hm_view(&r.sp_headers()) == without(hm_view(&h0), te_name())
         }),
         res matches Ok(r) ==> ({ // id: body_framed_by_rfc9112_rules [C01,C03]
             let w = stream_wire(&reader); let n = until_len(w, 16384, 10u8);
